@@ -124,6 +124,20 @@ static Outcome deliver(cs::Ctx& ctx, bool msgpack, int kind, const std::string& 
       doc.clear();
       if (ledger.live_blocks() != 0) ctx.fail("aftermath", "clear() left " + std::to_string(ledger.live_blocks()) + " live blocks");
       if (doc.overflowed()) ctx.fail("aftermath", "overflowed() still set after clear()");
+      // the same input once more into the same document: same code, same value (only for kinds
+      // that can be fed twice; the special Arduino kinds above are single-use here)
+      if (kind < 100) {
+        DeserializationError again_err = lib::feed(kind, bytes, [&](auto&&... in) { return call(msgpack, doc, limit, filter, in...); });
+        if ((int)again_err.code() != o.code)
+          ctx.fail("aftermath", "the same input deserialized again into the cleared document gives code " + std::to_string((int)again_err.code()) + " instead of " + std::to_string(o.code));
+        lib::ObserveOpts o2;
+        o2.cross_checks = false;
+        Val second = lib::observe(doc.as<JsonVariantConst>(), o2);
+        std::string why2;
+        if (!ref::same(o.obs, second, ref::num_exact, &why2)) ctx.fail("aftermath", "the same input deserialized again into the same document gives another value: " + why2);
+        lib::Inspector::Report rep2 = lib::Inspector::inspect(doc, true, false, false);
+        if (!rep2.error.empty()) ctx.fail("malformed-document", "after the second deserialization: " + rep2.error);
+      }
       DeserializationError e2 = deserializeJson(doc, "{\"k\":[1,\"two\",{\"3\":null}]}");
       if (e2 != DeserializationError::Ok) ctx.fail("aftermath", std::string("document cannot be reused: ") + e2.c_str());
       std::string again;
@@ -188,6 +202,11 @@ static void run_case(cs::Src& s, cs::Ctx& ctx) {
   o.dup_keys = true;
   o.long_strings = s.chance(1, 8);
   o.max_depth = (size_t)s.range(1, 6);
+  if (s.chance(1, 12)) {  // wide documents: more slots than the inline pools hold on the small geometry rows
+    o.max_children = 90;
+    o.node_budget = 260;
+    o.max_depth = 2;
+  }
   std::string bytes;
   static const unsigned wsrc[] = {8, 5, 5, 2};
   bool raw = s.below(10) == 1;  // raw byte input (always under libFuzzer with the seed prefix)
